@@ -255,6 +255,10 @@ pub fn check_sender(tr: &Trace) -> (Vec<MViol>, Summary) {
                 }
                 max_consecutive_failures = max_consecutive_failures.max(consecutive_failures);
             }
+            Event::SendFailed { .. } => {
+                // the socket refused a datagram: giving up is legitimate (nothing more is demanded afterwards)
+                tolerated_abort_cause = true;
+            }
             Event::Closed { .. } => {
                 close_burst(&mut out, &mut push, &mut burst, hi_before_burst, acked, prev_raised_to, prev_partial, prev_dup, &prev_label, &mut last_burst_t, ended);
             }
@@ -263,7 +267,8 @@ pub fn check_sender(tr: &Trace) -> (Vec<MViol>, Summary) {
     let finished = acked >= kfinal;
     if !finished && !tr.horizon_hit && !tr.stuck {
         // the worker gave up: was it entitled to?
-        if (last_answer_was_dup) && !error_delivered && max_consecutive_failures < RETRY_BUDGET {
+        // a duplicate / stale ACK must never be the reason for ending, however many of them arrive (C08)
+        if last_answer_was_dup && !error_delivered && !tolerated_abort_cause {
             push(&mut out, mv("W3-abort-on-dup-ack", &["C08", "C04"], format!("transfer aborted{} right after a duplicate/stale acknowledgement [{}]", if tr.panicked { " by panic" } else { "" }, prev_label), &[("ws", json!(cfg.ws)), ("panic", json!(tr.panicked))]));
         } else if !error_delivered && !tolerated_abort_cause && any_data && max_consecutive_failures < RETRY_BUDGET {
             push(&mut out, mv("L1-gave-up-early", &["C04"], format!("sender ended{} before the final block was acknowledged although at most {} consecutive receive attempts failed (last answer [{}])", if tr.panicked { " by panic" } else { "" }, max_consecutive_failures, prev_label), &[("role", json!("sender")), ("panic", json!(tr.panicked))]));
@@ -295,6 +300,7 @@ pub fn check_receiver(tr: &Trace) -> (Vec<MViol>, Summary) {
     let mut max_consecutive_failures = 0usize;
     let snap_mode = if cfg.snapshot_tail { Snapshot::Tail } else { Snapshot::Full };
     let mut acked_hi: u64 = 0;
+    let mut send_failed = false;
     for ev in &tr.events {
         match ev {
             Event::Send { bytes, file, .. } => {
@@ -377,10 +383,11 @@ pub fn check_receiver(tr: &Trace) -> (Vec<MViol>, Summary) {
                 }
                 max_consecutive_failures = max_consecutive_failures.max(consecutive_failures);
             }
+            Event::SendFailed { .. } => send_failed = true,
             Event::Closed { .. } => {}
         }
     }
-    let summary = Summary { finished: final_acked, error_delivered, max_consecutive_failures, tolerated_abort_cause: false };
+    let summary = Summary { finished: final_acked, error_delivered, max_consecutive_failures, tolerated_abort_cause: send_failed };
     if tr.horizon_hit || tr.stuck {
         return (out, summary);
     }
@@ -393,7 +400,7 @@ pub fn check_receiver(tr: &Trace) -> (Vec<MViol>, Summary) {
         }
     } else {
         // failed upload
-        if refr.done && !error_delivered && max_consecutive_failures < RETRY_BUDGET {
+        if refr.done && !error_delivered && !send_failed && max_consecutive_failures < RETRY_BUDGET {
             push(&mut out, mv("T2-ended-without-final-ack", &["C07", "C08"], "worker ended without acknowledging the final block it had received".into(), &[]));
         }
         match (&tr.final_file, cfg.clean) {
@@ -406,7 +413,7 @@ pub fn check_receiver(tr: &Trace) -> (Vec<MViol>, Summary) {
             }
             (None, true) => {}
         }
-        if !refr.done && !error_delivered && max_consecutive_failures < RETRY_BUDGET {
+        if !refr.done && !error_delivered && !send_failed && max_consecutive_failures < RETRY_BUDGET {
             push(&mut out, mv("L1-gave-up-early", &["C04"], format!("receiver ended{} before the final block although at most {} consecutive receive attempts failed", if tr.panicked { " by panic" } else { "" }, max_consecutive_failures), &[("role", json!("receiver")), ("panic", json!(tr.panicked))]));
         }
     }
